@@ -120,6 +120,7 @@ func (c DCfg) Build(tbl [][2]int64, maxRetries int, onSched func(failsafe.Execut
 var magnitudes = []int64{1_000, 1_000_000, 16_777_217, 1_000_000_000, 60_000_000_000, 3_600_000_000_000, 36_000_000_000_000}
 
 func TestDrive_C13(t *testing.T) {
+	driveReenteredBackoffProbes(t)
 	w := NewCaseWriter(t, "C13", "FS.Corr.C13")
 	rng := NewRng(envSeed())
 	thorough := envTier() == "thorough"
